@@ -3,7 +3,7 @@ import itertools
 import random
 from fractions import Fraction
 
-from .common import EXPONENTS, PREFIX, And, Case, Not, Or, call, check_names, exact_eq, payload
+from .common import EXPONENTS, PREFIX, And, Case, Not, Or, call, check_names, exact_eq, payload, vabs
 from .common import close as plain_close
 from .unitterms_common import (A, Dv, M, Mono, P, S, build, catalogue, depth, dimvec, eval_expr, exponent_value, fpow, fstr, lcm, mono,
                                mono_dimvec, mono_scale, numeric_coefficient, positive_scale, root_degree, tid)
@@ -13,34 +13,48 @@ LEVEL = "other"
 MANIFEST = dict(
     category="other",
     text=("Bounded symbolic execution of the real Unit operators (symx): atoms xa, xb, xc, k+xa (and offset / logarithmic / "
-          "same-dimension atoms where the law is about them) live in a custom registry with z3-real scales and offsets; for every "
-          "enumerated term shape (all of depth <= 1, a fixed seeded catalogue of depth 2 and 3, exponents from E) z3 proves per path, "
-          "for ALL positive scales, that scale/dimension/expression of the result equal the structure-independent monomial oracle, "
-          "and the laws (commutative, associative, identity, inverse, (u**p)**q == u**(p*q), (u*v)**p == u**p*v**p, u == v iff scale, "
-          "offset and dimension agree, guards raise exactly on offset/logarithmic operands outside the algebra). Shapes, names and "
-          "exponents are enumerated, not solved; simplify()/as_coeff_unit() on cancelling pairs use table units with concrete "
-          "scales (sympy expressions cannot hold solver terms), so those obligations are ground; rounding is outside."),
+          "same-dimension atoms where the law is about them) live in a custom registry whose scales and offsets are z3 reals; for "
+          "every enumerated term shape (all of depth <= 1, a fixed seeded catalogue of depth 2 and 3, exponents from E) the solver "
+          "decides per path, for ALL positive scales and all offsets, that scale/dimension/expression of the result equal a "
+          "structure-independent monomial oracle, and the laws: commutative, associative, identity, inverse, (u**p)**q == u**(p*q), "
+          "(u*v)**p == u**p*v**p, u == v iff scale, offset and dimension agree (never the spelling), equal hash for the same "
+          "expression, simplify()/as_coeff_unit()/cached unit rules preserve coeff*scale and dimension, offset/logarithmic guards "
+          "raise exactly outside the algebra. Encoding: a positive scale is written s = t**N (N = the root degree the case needs) so "
+          "that every rational power is an exact monomial; the exponent bookkeeping of that normal form is harness code (trusted), "
+          "the remaining (in)equalities - rounded coefficients, equality bands, offset forks - are z3 queries; all depth <= 1 terms are "
+          "also run with plain symbols and the engine's root witnesses (QF_NRA) as a cross-check. Enumerated, not solved: term shapes, "
+          "names, exponents. Ground (no solver share): simplify() on cancelling pairs (table units, sympy cannot hold solver terms), "
+          "hash/expression identity, dimension vectors. Rounding is outside."),
     design="DESIGN.md section 4 C05",
-    technique="symbolic execution of the real Python code over z3 real terms; SMT (QF_NRA, root witnesses) obligations per path; counterexample replay")
+    technique="symbolic execution of the real Python code over z3 real terms; SMT (QF_NRA / QF_LRA) obligations per path; counterexample replay")
 EXPLANATION = (
     "Unit.__mul__/__rmul__/__truediv__/__rtruediv__/__pow__/__eq__/__hash__, is_dimensionless, simplify, _cancel_mul, _factor_pairs, "
-    "_create_unit_from_factor, as_coeff_unit, _lookup_unit_symbol/_split_prefix and the lru-cached unit rules of unyt.array run for "
-    "real on Unit objects whose base_value/base_offset are z3 reals. Oracle: the term's normalised monomial coef*prod(s_i**e_i) and "
-    "its dimension exponent vector, computed by the harness independently of the order of operations; an independent evaluator "
-    "reads the resulting sympy expression back. Per path z3 decides pc & not(P); unsat = law holds for every positive scale "
-    "(every real offset)."
+    "_create_unit_from_factor, as_coeff_unit, _lookup_unit_symbol/_split_prefix and the lru-cached unit rules of unyt.array "
+    "(_multiply_units, _divide_units, _sqrt/_cbrt/_square/_reciprocal/_power_unit) run for real on Unit objects whose base_value/"
+    "base_offset are z3 reals. Oracle: the term's normalised monomial coef*prod(s_i**e_i) and its dimension exponent vector, computed "
+    "by the harness independently of the order of operations; an independent evaluator reads the resulting sympy expression back. "
+    "Per path z3 decides pc & not(P); unsat = the law holds for every positive scale (every real offset). Scales are s = t**N "
+    "(MonoReal, harness/unitterms_common.py): products/quotients/rational powers stay exact monomials over the t's, two monomials "
+    "over the same power product are compared through 'y > 0 => close(c1*y, c2*y)' (linear), Unit.__eq__'s math.isclose on such a "
+    "pair is decided on the exact rational coefficients. Obligations whose two sides normalise to the same term are closed by "
+    "z3's simplifier and counted as ground checks."
 )
 BOUNDS = {
-    "quick": "atoms {xa, xb, xc, kxa}; all terms of depth <= 1 (84+4), 260 seeded terms of depth 2 and 260 of depth 3, accumulated "
-             "root degree <= 6; exponents E (13 values) in 4 clothes (Fraction, float, sympy Rational, numpy float); power-of-power "
-             "over E x E for 14 terms; commutativity/inverse/distribution on all atom pairs + 150 seeded pairs; associativity on all "
-             "atom triples + 100 seeded triples; 60 equality cases; 150 simplify cases; offset/logarithmic guards: 11 units x 11 partners x 4 operators + 13 powers",
-    "thorough": "same atoms; all terms of depth <= 1, 2500 seeded terms of depth 2 and 2500 of depth 3; power-of-power over E x E for 60 terms; "
-                "1500 seeded pairs, 1500 seeded triples; equality, simplify (900) and guard tables as in quick plus all ordered pairs of the 145 table atoms (ground)",
+    "quick": "atoms {xa, xb, xc, kxa}; all 88 terms of depth <= 1 with every p in E given as Fraction/float/sympy Rational/numpy float, 260 seeded "
+             "terms of depth 2 and 260 of depth 3 (root degree <= 36); the 88 shallow terms again in the root-witness encoding; power-of-power over "
+             "E x E for 14 terms; all 16 atom pairs + 150 seeded pairs; all 64 atom triples + 100 seeded triples; 31 symbolic + 31 table equality "
+             "cases, 2 symbolic offset-pair cases; 12 hash cases; 150 simplify and 40 cached-rule cases; guards: 11 units x 11 partners x 4 operators, "
+             "26 powers of 11 units; 4 unit-with-number cases",
+    "thorough": "same atoms; 1800 seeded terms of depth 2 and 1800 of depth 3; power-of-power over E x E for 40 terms; 1000 seeded pairs, 1000 seeded "
+                "triples; 900 simplify and 300 cached-rule cases; equality, hash and guard tables as in quick; all ordered pairs of the 145 table atoms (ground)",
 }
 OUTSIDE = ("IEEE rounding (A1); cancellation inside simplify() with symbolic scales (table units there: ground obligations); term shapes "
-           "beyond the catalogue (depth > 3, root degree > 6); units of non-positive scale; hash equality of *different* spellings of "
-           "equal units (not promised); cross-registry operands (C13)")
+           "beyond the catalogue (depth > 3, root degree > 36); units of non-positive scale; hash equality of *different* spellings of "
+           "equal units (not promised by the property); offsets on units that are neither temperature nor angle; u**0 of an offset unit; "
+           "cross-registry operands (C13)")
+ASSUMPTIONS = ["MonoReal (harness/unitterms_common.py): a positive scale symbol is introduced as t**N; the exponent arithmetic that keeps products, "
+               "quotients and rational powers of such scales in exact monomial form, and the reduction of closeness/isclose of two monomials over the "
+               "same power product to their rational coefficients, are harness code"]
 CONFORM = {"quick": 40, "thorough": 120}
 
 NAMES = ["xa", "xb", "xc", "xd", "xn", "xq", "xt", "xu", "xg", "xl", "xz"]
@@ -59,10 +73,6 @@ TABLE = {
     "W": (1.0, {M_: F(1), L_: F(2), T_: F(-3)}), "Pa": (1.0, {M_: F(1), L_: F(-1), T_: F(-2)}), "Hz": (1.0, {T_: F(-1)}),
     "K": (1.0, {TH_: F(1)}), "rad": (1.0, {ANG_: F(1)}), "%": (0.01, {}), "dimensionless": (1.0, {}),
 }
-
-
-def tmono(t):
-    return mono_expand(t)
 
 
 def mono_expand(t):
@@ -270,6 +280,14 @@ def sandwich(ctx, tag, u, v, su, sv, ou, ov, dims_equal):
         ctx.require(f"{tag}: == only if scale, offset, dimension agree", And(plain_close(su, sv, tol=t8), plain_close(ou, ov, tol=t8), dims_equal))
     else:
         ctx.require(f"{tag}: != only if scale, offset or dimension differ", Not(And(plain_close(su, sv, tol=t10), plain_close(ou, ov, tol=t10), dims_equal)))
+    # interior probes (implied by the two obligations above): their counterexamples lie strictly inside a band, so that a wrong
+    # tolerance in Unit.__eq__ yields a model that replays robustly in IEEE doubles instead of one sitting on the band's edge
+    if dims_equal:
+        gap = vabs(su - sv)
+        mid = (su + sv) * 0.5
+        for lo, hi in ((3e-8, 1e-7), (3e-6, 1e-5), (3e-4, 1e-3)) if eq else ((3e-12, 1e-11), (3e-11, 1e-10)):
+            ctx.require(f"{tag}: {'==' if eq else '!='} never with scales a relative {lo:g}..{hi:g} apart (offsets equal)",
+                        Not(And(gap > mid * lo, gap < mid * hi, plain_close(ou, ov, tol=t10))))
     ctx.require(f"{tag}: symmetric", bool(v == u) is eq)
     ctx.require(f"{tag}: != is the negation", (u != v) is (not eq))
     ctx.observe(f"{tag}: eq", eq)
@@ -411,10 +429,6 @@ HASH_STRINGS = ["xa", "kxa", "xa*xb", "xb*xa", "xa**2/xc", "xa**(1/2)*xb**(-3/2)
 # ----------------------------------------------------------------------------- simplify / as_coeff_unit / cached unit rules
 
 TAB_ATOMS = ["m", "cm", "km", "g", "kg", "s", "ms", "J", "erg", "N", "dyn", "inch", "min"]
-
-
-def tscale(t, scale_of):
-    return mono_scale(mono(t), scale_of)
 
 
 def make_simp_case(t, idx):
@@ -786,7 +800,7 @@ def cases(tier, mods):
     check_names(mods, NAMES)
     quick = tier == "quick"
     out = []
-    atoms, d1, d2, d3 = catalogue(ATOMS, 260 if quick else 2500, 260 if quick else 2500)
+    atoms, d1, d2, d3 = catalogue(ATOMS, 260 if quick else 1800, 260 if quick else 1800)
     some_p = [F(2), F(-1, 2), F(2, 3)]
     for t in atoms + d1:
         out.append(make_term_case(t, EXPONENTS))
@@ -796,7 +810,7 @@ def cases(tier, mods):
         out.append(make_term_case(t, [F(2), F(-1), F(1, 2), F(-1, 3), F(3, 2)], witness=True))
     rnd = random.Random(7)
     pool = atoms + d1 + d2
-    pp_terms = atoms + rnd.sample(d1, 6 if quick else 30) + rnd.sample(d2, 4 if quick else 26)
+    pp_terms = atoms + rnd.sample(d1, 6 if quick else 20) + rnd.sample(d2, 4 if quick else 16)
     for t in pp_terms:
         for p in EXPONENTS:
             out.append(make_powpow_case(t, p))
@@ -804,7 +818,7 @@ def cases(tier, mods):
     for a, b in itertools.product(atoms, atoms):
         out.append(make_pair_case(a, b, EXPONENTS))
         seen.add((a, b))
-    while len(seen) < 16 + (150 if quick else 1500):
+    while len(seen) < 16 + (150 if quick else 1000):
         a, b = rnd.choice(pool), rnd.choice(pool)
         if (a, b) not in seen:
             seen.add((a, b))
@@ -813,7 +827,7 @@ def cases(tier, mods):
     for tr in itertools.product(atoms, atoms, atoms):
         out.append(make_triple_case(*tr))
         seen.add(tr)
-    while len(seen) < 64 + (100 if quick else 1500):
+    while len(seen) < 64 + (100 if quick else 1000):
         tr = (rnd.choice(pool), rnd.choice(pool), rnd.choice(pool))
         if tr not in seen:
             seen.add(tr)
